@@ -26,6 +26,8 @@ class Report:
         self.dist = {}
         self.notes = []
         self.rule = ''
+        self.xreqs = []            # requests re-evaluated inside Coq (extraction cross-check)
+        self.xchecked = 0
         self.t0 = time.time()
 
     def count(self, payload, nontrivial=True):
@@ -92,6 +94,7 @@ def write_evidence(rep, binfo, level_rule, trusted, assumptions):
             'input_distribution': rep.dist,
             'notes': rep.notes,
             'known_findings_confirmed': sorted(rep.known_hits),
+            'extraction_cross_checked_requests': rep.xchecked,
             'exhaustive': False,
         },
         'assumptions': assumptions,
